@@ -116,6 +116,12 @@ def gen_scalar(rng, k, extreme):
         return rng.random() < 0.5
     n = rng.choice([0, 1, 2, 16, 254, 255, 256, 510, 511, 700]) if extreme else rng.choice([0, 1, 3, 8, 14, 16, 32])
     if k == "s":
+        # Go strings are arbitrary bytes: NUL (also leading / trailing), invalid UTF-8, the delimiter bytes 00 00
+        if rng.random() < 0.3:
+            body = bytes(rng.choice([0, 0, 1, 0x7f, 0x80, 0xff, 0x41]) for _ in range(n))
+            return body
+        if n >= 2 and rng.random() < 0.3:
+            return bytes(rng.choice(b"abcXYZ 09-_") for _ in range(n - 1)) + b"\x00"
         return bytes(rng.choice(b"abcXYZ 09-_") for _ in range(n))
     return bytes(rng.getrandbits(8) for _ in range(n))
 
